@@ -72,6 +72,7 @@ const (
 	opLock         // database lock on (server,id): enabled iff free
 	opMutex        // sync.Mutex of the library (T2): enabled iff free
 	opAwait        // wait for child tasks to finish
+	opPause        // a pure scheduling point (clock read, response write): cannot fail, always enabled
 )
 
 type Op struct {
